@@ -73,11 +73,16 @@ def list_nested_defer_doc(rng):
     lst = rng.choice(['users', 'me { friends', 'nnMe { nnFriends', 'me { nnFriends'])
     close = ' }' if '{' in lst else ''
     obj = rng.choice(['best', 'nnBest', 'best'])
-    a, b, c = rng.sample(leafs, 3)
+    a, b, c, sh = rng.sample(leafs, 4)
     inner = f'{obj} {{ {a} ... @defer(label: "I") {{ {b} }} }}'
     outer = f'... @defer(label: "O") {{ {c} {inner} }}'
-    if rng.random() < 0.3:
+    k = rng.random()
+    if k < 0.25:
         outer = f'... @defer(label: "O") {{ {inner} }} {c}'
+    elif k < 0.65:
+        # a sibling fragment sharing a field with O keeps O pending (the shared field is a unit of work of its own) after
+        # the unit that discovers the nested fragment has finished
+        outer = f'... @defer(label: "O") {{ {inner} {sh} }} ... @defer(label: "C") {{ {sh} }}'
     top = rng.choice(['... @defer(label: "T") { t: __typename }', '... @defer(label: "T") { me { id } }'])
     body = f'{lst} {{ {rng.choice(leafs)} {outer} }}{close}'
     if rng.random() < 0.35:
